@@ -128,7 +128,9 @@ def make_server_class():
             return self._r("r_password", AUTH_FAILED)
 
         def check_auth_publickey(self, username, key):
-            self.log.append("publickey(%s,%s)" % (canon(username), canon(key)))
+            # the key in the form the signed data carries it: the certificate blob for certificate keys
+            shown = key.public_blob.key_blob if getattr(key, "public_blob", None) else key
+            self.log.append("publickey(%s,%s)" % (canon(username), canon(shown)))
             return self._r("r_pubkey", AUTH_FAILED)
 
         def _iq(self, r):
@@ -338,19 +340,27 @@ class Session:
             self._quiesce(r0 + 1)
         if self.ended:
             self.ts.join(WAIT)
+        return self._observe(log0, sent0, delivered)
+
+    def _observe(self, log0, sent0, delivered):
         ts = self.ts
         return {
             "cbs": list(self.server.log[log0:]),
             "sent": [x for x in self.sent[sent0:]],
             "active": bool(ts.active) and not self.ended,
-            "authed": bool(ts.active and ts.auth_handler is not None
-                           and getattr(ts.auth_handler, "authenticated", None) is True)
-                      if not hasattr(ts.auth_handler, "is_authenticated") else bool(ts.is_authenticated()),
+            "authed": self._authed(),
             "nchan": len(ts._channels.values()) + len(ts.server_accepts) + len(ts.channels_seen),
             "delivered": delivered,
             "exc": self._new_exc(),
             "username": self._username(),
         }
+
+    def _authed(self):
+        ts = self.ts
+        if not hasattr(ts.auth_handler, "is_authenticated"):
+            return bool(ts.active and ts.auth_handler is not None
+                        and getattr(ts.auth_handler, "authenticated", None) is True)
+        return bool(ts.is_authenticated())
 
     def _username(self):
         """what Transport.get_username() reports (hex), 'None', or 'err' (sub-handler without get_username)"""
@@ -361,6 +371,28 @@ class Session:
         if u is None:
             return "None"
         return (u.encode("utf-8", "surrogateescape") if isinstance(u, str) else bytes(u)).hex() or "-"
+
+    def rekey(self, env=None):
+        """client-initiated key re-exchange (Transport.renegotiate_keys on the raw client), observed like a step"""
+        self.server.env.clear()
+        self.server.env.update(env or {})
+        log0, sent0 = len(self.server.log), len(self.sent)
+        with self.cv:
+            r0 = self.returns
+        delivered = bool(self.tc.active)
+        if delivered:
+            try:
+                self.tc.renegotiate_keys()
+            except Exception:
+                pass  # the server refused / the connection ended: visible in the observation
+            with self.cv:
+                ok = self.cv.wait_for(lambda: self.ended or (self.returns >= r0 + 3 and
+                                                             self.calls == self.returns + 1), WAIT)
+            if not ok:
+                raise InfraError("server transport thread did not finish the key re-exchange")
+        if self.ended:
+            self.ts.join(WAIT)
+        return self._observe(log0, sent0, delivered)
 
     def _new_exc(self):
         """class name of the exception saved by the transport *during this step* (None if unchanged)"""
@@ -495,6 +527,30 @@ def client_keys():
     return _keys["clients"]
 
 
+def cert_keys():
+    """[(private key with its OpenSSH certificate loaded, certificate algorithm, certificate blob)]"""
+    from paramiko import ECDSAKey, Ed25519Key
+    from tests._util import _support
+
+    if "certs" not in _keys:
+        out = []
+        for cls, f in ((Ed25519Key, "ed25519"), (ECDSAKey, "ecdsa-256")):
+            k = cls.from_private_key_file(_support(f + ".key"))
+            k.load_certificate(_support(f + ".key-cert.pub"))
+            out.append((k, k.public_blob.key_type, k.public_blob.key_blob))
+        _keys["certs"] = out
+    return _keys["certs"]
+
+
+def other_cert_same_key(cert_blob):
+    """another certificate for the same subject key: the nonce differs (paramiko does not check the CA signature)"""
+    n = int.from_bytes(cert_blob[:4], "big")
+    off = 4 + n + 4
+    b = bytearray(cert_blob)
+    b[off] ^= 0x5A
+    return bytes(b)
+
+
 def session_blob(sid, user, service, algo, keybytes):
     """RFC 4252 section 7 signature input, built here (independent of AuthHandler._get_session_blob)"""
     def s(x):
@@ -523,7 +579,10 @@ def key_canon(payload):
         return None
     try:
         k = Transport._key_info[algo](Message(blob))
-        return k.asbytes() if k is not None else None
+        if k is None:
+            return None
+        # the public key blob as the signature must cover it (RFC 4252 section 7): the certificate for cert keys
+        return k.public_blob.key_blob if k.public_blob else k.asbytes()
     except Exception:
         return None
 
@@ -663,9 +722,17 @@ class Gen:
         key, algos = rng.choice(keys)
         algo = rng.choice(algos)
         keyblob = key.asbytes()
+        cert = None
+        if rng.random() < (0.3 if self.profile == "c14" else 0.1):
+            key, calgo, keyblob = rng.choice(cert_keys())
+            algos = [calgo]
+            algo = calgo
+            cert = keyblob
         canon = keyblob
         r = rng.random()
-        if r < 0.05:
+        if cert is not None:
+            pass
+        elif r < 0.05:
             algo = "ssh-dss"  # not offered
             canon = None
         elif r < 0.10:
@@ -682,7 +749,20 @@ class Gen:
         if attached:
             kind = rng.choices(["valid", "other-session", "other-user", "other-service", "other-algo", "other-key",
                                 "wrong-signer", "flipped", "no-session-id"], [8, 2, 2, 1, 1, 1, 2, 2, 1])[0]
-            f = {"sid": sid, "user": user, "service": service, "algo": algo.encode(), "key": key.asbytes()}
+            if cert is not None and rng.random() < 0.5:
+                kind = rng.choice(["cert-bare-key", "cert-swapped", "cert-bare-key-plain-algo"])
+            # RFC 4252 section 7: the signed data carries the public key blob exactly AS SENT in the request
+            f = {"sid": sid, "user": user, "service": service, "algo": algo.encode(), "key": keyblob}
+            if kind == "cert-bare-key":
+                f["key"] = key.asbytes()            # signature over the subject key only, certificate not covered
+            elif kind == "cert-bare-key-plain-algo":
+                f["key"] = key.asbytes()
+                f["algo"] = algo.replace("-cert-v01@openssh.com", "").encode()
+            elif kind == "cert-swapped":
+                # signed for this certificate, sent with another certificate of the same key
+                keyblob = other_cert_same_key(cert)
+                body = S(attached, algo.encode(), keyblob)
+                tok = ["key=" + hx(keyblob)]
             signer = key
             if kind == "other-session":
                 f["sid"] = bytes(rng.randrange(256) for _ in range(len(sid)))
@@ -700,7 +780,7 @@ class Gen:
                 same = [k for k in keys if k[0] is not key]
                 signer = None
             blob = session_blob(f["sid"], f["user"], f["service"], f["algo"], f["key"])
-            sign_algo = algo if algo in algos else algos[0]
+            sign_algo = (algo if algo in algos else algos[0]).replace("-cert-v01@openssh.com", "")
             good = True
             if signer is None:
                 # a signature with the right structure for this key family, by a different private key
@@ -715,7 +795,8 @@ class Gen:
                 good = False
             body += S(sig)
             tok += ["signed=" + hx(blob), "sigok=%d" % good]
-            meta.update(sigkind=kind, sig_valid=(kind == "valid"))
+            # "valid" only counts for a request whose key field is a well-formed key of the declared algorithm
+            meta.update(sigkind=kind, sig_valid=(kind == "valid" and canon is not None))
         return body, tok, meta
 
     def foreign_signature(self, key, algo, blob):
@@ -786,6 +867,11 @@ class Gen:
             r = rng.random()
             w_auth = {"c16": 0.78, "c15": 0.35, "c14": 0.62}[prof]
             w_conn = {"c16": 0.04, "c15": 0.45, "c14": 0.06}[prof]
+            if i > 0 and rng.random() < (0.07 if prof == "c16" else 0.02):
+                e2 = self.env()
+                steps.append({"ptype": 20, "payload": b"", "env": e2, "tok": self.env_tokens(e2),
+                              "meta": {"kind": "rekey"}, "op": "rekey"})
+                continue
             if i == 0 and rng.random() < 0.6:
                 p, payload, tok, meta = 5, S(b"ssh-userauth"), [], {"kind": "service"}
             elif self.calm and r < 0.93:
@@ -832,7 +918,10 @@ def run_real(make_steps, gss_kex):
         for st in steps:
             seq = getattr(sess.tc.packetizer, "_Packetizer__sequence_number_out")
             st["seq"] = seq
-            o = sess.step(st["ptype"], st["payload"], st["env"])
+            if st.get("op") == "rekey":
+                o = sess.rekey(st["env"])
+            else:
+                o = sess.step(st["ptype"], st["payload"], st["env"])
             obs.append(o)
         w = sess.wire_consistent()
         if w is not None and obs:
@@ -920,6 +1009,13 @@ def run_profile(ctx, driver_name, profile, n_sessions, tables, max_steps=12):
     return run_sessions(ctx, driver_name, profile_makers(ctx, profile, n_sessions, tables, max_steps))
 
 
+def rekey_step(gen):
+    """a client-initiated key re-exchange as one step of a scripted session (model: kex-layer, delegated)"""
+    st = mk_step(gen, 20, b"", meta={"kind": "rekey"})
+    st["op"] = "rekey"
+    return st
+
+
 def mk_step(gen, ptype, payload, env_over=None, extra_tok=(), meta=None):
     """one hand-made step in the format Gen.session produces"""
     e = gen.env()
@@ -933,7 +1029,7 @@ def describe(tr, upto=None):
     steps = tr["steps"] if upto is None else tr["steps"][: upto + 1]
     return {"session_id": tr["sid"].hex(), "gss_kex": tr["gss_kex"],
             "steps": [{"ptype": s["ptype"], "payload": s["payload"].hex(), "env": repr(s["env"]),
-                       "tok": " ".join(s["tok"])} for s in steps]}
+                       "tok": " ".join(s["tok"]), **({"op": s["op"]} if s.get("op") else {})} for s in steps]}
 
 
 def compare_traces(ctx, traces, what):
@@ -1022,18 +1118,40 @@ def is_disconnect(m, code=None):
     return m[:1] == b"\x01" and (code is None or m[1:5] == code.to_bytes(4, "big"))
 
 
-def pk_step(gen, sid, user, key, algo, attached, res, sigkind="valid"):
-    """a publickey USERAUTH_REQUEST for exactly this (user, key, algorithm), application answer `res` for THIS call"""
-    body = S(attached, algo.encode(), key.asbytes())
-    tok = ["key=" + hx(key.asbytes())]
+def pk_step(gen, sid, user, key, algo, attached, res, sigkind="valid", sent_blob=None, signed_key=None):
+    """a publickey USERAUTH_REQUEST for exactly this (user, key, algorithm), application answer `res` for THIS call.
+    sent_blob: the public key blob in the request (default: the key's own; a certificate blob for cert algorithms);
+    signed_key: the key field of the data that is signed (default: the blob as sent, as RFC 4252 section 7 demands)"""
+    sent_blob = key.asbytes() if sent_blob is None else sent_blob
+    body = S(attached, algo.encode(), sent_blob)
+    tok = ["key=" + hx(sent_blob)]
     meta = {"kind": "auth", "user": user, "service": b"ssh-connection", "method": b"publickey", "algo": algo,
             "attached": attached, "key_ok": True, "sigkind": None}
     if attached:
-        f_sid = sid if sigkind == "valid" else bytes(32)
-        blob = session_blob(f_sid, user, b"ssh-connection", algo.encode(), key.asbytes())
-        sig = key.sign_ssh_data(blob, algo).asbytes()
+        f_sid = sid if sigkind != "other-session" else bytes(32)
+        blob = session_blob(f_sid, user, b"ssh-connection", algo.encode(),
+                            sent_blob if signed_key is None else signed_key)
+        sig = key.sign_ssh_data(blob, algo.replace("-cert-v01@openssh.com", "")).asbytes()
         body += S(sig)
         tok += ["signed=" + hx(blob), "sigok=1"]
         meta.update(sigkind=sigkind, sig_valid=(sigkind == "valid"))
     payload = S(user, b"ssh-connection", b"publickey") + body
     return mk_step(gen, 50, payload, {"r_pubkey": res}, tok, meta)
+
+
+CB_ENV = {"none": "r_none", "password": "r_password", "publickey": "r_pubkey", "interactive": "r_inter",
+          "iresponse": "r_iresp", "gssmic": "r_gssmic", "gsskeyex": "r_gsskeyex"}
+
+
+def verdicts(st, r):
+    """[(callback name, callback text, the verdict the scripted application returned for THIS call)]"""
+    out = []
+    for c in cred_cbs(r):
+        name = c[:c.index("(")]
+        out.append((name, c, st["env"].get(CB_ENV[name])))
+    return out
+
+
+def legitimately_granted(st, r):
+    """USERAUTH_SUCCESS is on the wire in this step AND the application's verdict in this step was AUTH_SUCCESSFUL"""
+    return any(m == b"\x34" for m in sent_list(r)) and any(v == 0 for _n, _c, v in verdicts(st, r))
